@@ -32,10 +32,10 @@ def run(tier: str, keep: bool = False) -> int:
     famS = (f'Numbered({{ [SoloBase(2, 1, 2) EXCEPT !.mode = m, !.closure = c, !.indS = i, !.msgs = g] : m \\in {{"ACK", "UNACK"}}, '
             f'c \\in BOOLEAN, i \\in {inds}, g \\in {{<<>>, << <<99, 102, 100, 112, 10, 17, 0, 5, 0, 7>> >>, '
             f'<< <<99, 102, 100, 112, 10, 17, 0, 5, 0, 7>>, <<99, 102, 100, 112, 7, 0, 0>> >>}} }})')
-    r.solo("dst", "D", famD, ["md", "fd", "eof", "eofcancel", "ack", "poll", "cancel", "tick"], 4 if q else 5, props,
-           limit=6000 if q else 200000)
-    r.solo("src", "S", famS, ["poll", "nak", "ack", "fin", "cancel", "tick"], 4 if q else 6, props, pre=[["put"]],
-           limit=6000 if q else 200000)
+    r.solo("dst", "D", famD, ["md", "fd", "eof", "eofcancel", "ack", "poll", "cancel", "tick"], 4, props,
+           limit=6000 if q else 60000)
+    r.solo("src", "S", famS, ["poll", "nak", "ack", "fin", "cancel", "tick"], 4 if q else 5, props, pre=[["put"]],
+           limit=6000 if q else 60000)
     rng = r.rng
     cfgs = []
     for mode, closure, imm in itertools.product(["ACK", "UNACK"], [False, True], [True, False]):
